@@ -92,6 +92,7 @@ func c01Alphabet(tier string) []seqSym {
 		sy("JSET", "k2", "c", "v", "true", "STR"), // the text of a literal, stored as a string
 		sy("JSET", "k1", "b", "properties.q", "null", "STR"),
 		sy("JSET", "k2", "c", "w", "false", "RAW"),
+		{Name: "SET k1 a FIELD p+ {json} FIELD p.q hello", Args: []string{"SET", "k1", "a", "FIELD", "p+", `{"q":1}`, "FIELD", "p.q", "hello", "POINT", "1", "1"}}, // a JSON-valued field sorting between "p" and "p.q"
 		sy("JSET", "k2", "c", "n", ".5"), // not JSON numbers: stored as strings
 		sy("JSET", "k2", "c", "n", "e5"),
 		sy("JSET", "k1", "b", "properties.m", "-.5e1"),
